@@ -565,13 +565,17 @@ func run(c *harness.Ctx, i int) {
 		"stats": stats})
 }
 
+// hangsSeen counts commands of this child process that did not return: after two of them the ssh variant is left out
+// (every such case costs a minute, and the finding is made)
+var hangsSeen int
+
 func runCLI(c *harness.Ctx, dir, target string, blob []byte, idx desync.Index, specs []seedSpec, storeDir string, action, n int, prior string, mustSucceed bool, class string, sz dsu.Sizes, sigKinds string) {
 	idxFile := filepath.Join(dir, "target.caibx")
 	dsu.Must(dsu.WriteIndex(idxFile, idx))
 	args := []string{"extract", "-s", storeDir, "-n", fmt.Sprint(n), "--print-stats"}
 	// several stores: in front of the complete one an ssh:// store (casync protocol, `desync pull` behind the stand-in
 	// for ssh) that holds only some of the chunks - asking it for what it lacks and moving on is a router's daily work
-	multi := os.Getenv("VERIF_SHIM") != "" && c.Rng.Intn(3) == 0
+	multi := os.Getenv("VERIF_SHIM") != "" && c.Rng.Intn(3) == 0 && hangsSeen < 2
 	if multi {
 		part := filepath.Join(dir, "partial-store")
 		os.MkdirAll(part, 0755)
@@ -669,6 +673,7 @@ func runCLI(c *harness.Ctx, dir, target string, blob []byte, idx desync.Index, s
 			// a command that takes a fraction of a second has not returned: look at what its goroutines are doing
 			cmd.Process.Signal(syscall.SIGQUIT)
 			err = <-done
+			hangsSeen++
 			if harness.DumpIsStuckWaitingForChildren(stderr.String()) {
 				c.Violation("hang:cli", "desync %v did not return; its goroutine dump shows every goroutine waiting for a channel, a lock or its own idle helper processes:\n%s", args, stderr.String())
 			} else {
